@@ -65,9 +65,19 @@ struct Group {
     modes: Vec<String>,
 }
 
+/// What of an observation goes into a record (the text of diagnostics does not).
+fn same(sc: &Scenario, a: &Obs, b: &Obs) -> bool {
+    a.outcome == b.outcome
+        && a.trace == b.trace
+        && a.status == b.status
+        && a.stderr.is_empty() == b.stderr.is_empty()
+        && a.stdout.len() == b.stdout.len()
+        && (!sc.has("VB") || a.stderr.split_inclusive('\n').take(64).eq(b.stderr.split_inclusive('\n').take(64)))
+}
+
 fn add(groups: &mut Vec<Group>, sc: &Scenario, obs: Obs, echo_fd: bool, name: String) {
     let e = echo_fd && sc.has("VB");
-    if let Some(g) = groups.iter_mut().find(|g| g.obs == obs && g.echo_fd == e) {
+    if let Some(g) = groups.iter_mut().find(|g| same(sc, &g.obs, &obs) && g.echo_fd == e) {
         g.modes.push(name);
     } else {
         groups.push(Group { obs, echo_fd: e, modes: vec![name] });
